@@ -23,12 +23,103 @@ READERS = {"get", "items", "keys", "values", "copy", "index", "count", "__len__"
 PURE_FUNCS = {"len", "list", "tuple", "iter", "enumerate", "sorted", "reversed", "dict", "set", "any", "all", "bool", "print", "repr", "str"}
 
 
+def _guard_like(m):
+    """A method whose body only tests and raises / returns None: `self.m(args)` as a statement is then a guard."""
+    def ok(stmts):
+        for st in stmts:
+            if isinstance(st, ast.If):
+                if not (ok(st.body) and ok(st.orelse)):
+                    return False
+            elif isinstance(st, ast.Return):
+                if st.value is not None and not (isinstance(st.value, ast.Constant) and st.value.value is None):
+                    return False
+            elif isinstance(st, (ast.Raise, ast.Pass)) or (isinstance(st, ast.Expr) and isinstance(st.value, ast.Constant)):
+                continue
+            else:
+                return False
+        return True
+    return not m.decorator_list and not m.args.vararg and not m.args.kwarg and not m.args.kwonlyargs and ok(m.body) and any(isinstance(x, ast.Raise) for x in ast.walk(m))
+
+
+def _without_returns(stmts):
+    """stmts with every `return` removed by nesting what follows it into the other branch -> (statements, may fall through)."""
+    out = []
+    for i, st in enumerate(stmts):
+        if isinstance(st, ast.Return):
+            return out, False
+        if isinstance(st, ast.Raise):
+            return out + [st], False
+        if isinstance(st, ast.If):
+            b, fb = _without_returns(st.body)
+            e, fe = _without_returns(st.orelse)
+            if fb and fe:
+                out.append(ast.If(test=st.test, body=b or [ast.Pass()], orelse=e))
+                continue
+            rest, fr = _without_returns(stmts[i + 1:])
+            if not fb and not fe:
+                out.append(ast.If(test=st.test, body=b or [ast.Pass()], orelse=e))
+                return out, False
+            if not fb:
+                out.append(ast.If(test=st.test, body=b or [ast.Pass()], orelse=e + rest))
+            else:
+                out.append(ast.If(test=st.test, body=(b + rest) or [ast.Pass()], orelse=e))
+            return out, fr
+        if isinstance(st, ast.Expr) and isinstance(st.value, ast.Constant):
+            continue
+        out.append(st)
+    return out, True
+
+
+def inline_guard_helpers(tree):
+    """In every class of the module: a statement `self.m(args)` whose method m is guard-like is replaced by m's body
+    (parameters substituted, returns eliminated).  The rules then see `if not isinstance(...): raise` where the source says
+    `self._check_type(msg)`: a guard moved into a helper stays the same guard."""
+    for cls in [n for n in ast.walk(tree) if isinstance(n, ast.ClassDef)]:
+        helpers = {m.name: m for m in cls.body if isinstance(m, FUNCS) and _guard_like(m)}
+        if not helpers:
+            continue
+        for m in [x for x in cls.body if isinstance(x, FUNCS) and x.name not in helpers]:
+            def rewrite(stmts):
+                res = []
+                for st in stmts:
+                    for fld in ("body", "orelse", "finalbody"):
+                        if isinstance(getattr(st, fld, None), list) and not isinstance(st, FUNCS + (ast.ClassDef,)):
+                            setattr(st, fld, rewrite(getattr(st, fld)))
+                    c = st.value if isinstance(st, ast.Expr) else None
+                    if isinstance(c, ast.Call) and isinstance(c.func, ast.Attribute) and isinstance(c.func.value, ast.Name) and c.func.value.id == "self" \
+                            and c.func.attr in helpers and not c.keywords and not any(isinstance(a, ast.Starred) for a in c.args):
+                        h = helpers[c.func.attr]
+                        ps = [a.arg for a in h.args.args][1:]
+                        if len(ps) == len(c.args):
+                            sub = dict(zip(ps, c.args))
+
+                            class S(ast.NodeTransformer):
+                                def visit_Name(self, n):
+                                    return copy.deepcopy(sub[n.id]) if n.id in sub and isinstance(n.ctx, ast.Load) else n
+                            body, _ = _without_returns(copy.deepcopy(h.body))
+                            body = [S().visit(b) for b in body]
+                            for b in body:
+                                for x in ast.walk(b):
+                                    ast.copy_location(x, st)
+                                ast.fix_missing_locations(b)
+                            res.extend(body or [ast.Pass(lineno=st.lineno, col_offset=st.col_offset)])
+                            continue
+                    res.append(st)
+                return res
+            m.body = rewrite(m.body)
+
+
 class Ctx:
     """Per-run caches: Flow / Locals per function, class tables."""
 
     def __init__(self, w, rep):
         self.fe, self.rep = w.fe, rep
         self._flow, self._loc = {}, {}
+        for rel in (UROS, MSGS, EST):
+            sf = self.fe.get(rel)
+            if sf is not None and not getattr(sf, "_guards_inlined", False):
+                inline_guard_helpers(sf.tree)
+                sf._guards_inlined = True
 
     def flow(self, fn):
         if id(fn) not in self._flow:
@@ -675,14 +766,15 @@ def rule_param_wiring(cx, all_subscriber):
             continue
         s = sites[0]
         base, why, _ = strip_iter(s.iter)
-        other = [f for f in s.event.facts if not (guard and isinstance(f.cond, ast.Compare) and unp(f.cond) == guard and f.pol)]
+        is_guard = lambda f: bool(guard) and eq_fact(f.cond, f.pol) is not None and eq_fact(f.cond, f.pol) == eq_fact(guard)
+        other = [f for f in s.event.facts if not is_guard(f)]
         if s.unknown or other:
             rep.incomplete(R, I, "unrecognised shape: %s" % (s.unknown[0][0] if s.unknown else "conditional on " + other[0].text()), where=cx.where(rel, s.node))
         elif base is None or unp(base) != "self.param_list":
             rep.fail(R, I, why or "iterates %s instead of self.param_list" % unp(s.iter), where=cx.where(rel, s.node))
         elif s.problems or s.call.args:
             rep.fail(R, I, "; ".join(m for m, _ in s.problems) or "update() takes no argument", where=cx.where(rel, s.node))
-        elif guard and not any(unp(f.cond) == guard and f.pol for f in s.event.facts) and s.event.facts:
+        elif guard and not any(is_guard(f) for f in s.event.facts) and s.event.facts:
             rep.incomplete(R, I, "guard mismatch", where=cx.where(rel, s.node))
         elif id(s.event.node) not in cx.flow(cb).exit_done() and not guard:
             rep.fail(R, I, "the update loop is not reached on every path through the callback", where=cx.where(rel, s.node))
@@ -693,6 +785,15 @@ def rule_param_wiring(cx, all_subscriber):
 
 # ---------------------------------------------------------------------------------------------------------
 # Logger
+
+def eq_fact(cond, pol=True):
+    """An (in)equality fact in normal form: ({left text, right text}, holds-as-equality) - `a != b` being false is `a == b`."""
+    if isinstance(cond, str):
+        cond = ast.parse(cond, mode="eval").body
+    if isinstance(cond, ast.Compare) and len(cond.ops) == 1 and isinstance(cond.ops[0], (ast.Eq, ast.NotEq)):
+        return frozenset((unp(cond.left), unp(cond.comparators[0]))), isinstance(cond.ops[0], ast.Eq) == bool(pol)
+    return None
+
 
 def is_deepcopy(e):
     return isinstance(e, ast.Call) and callee_name(e) == "deepcopy" and len(e.args) == 1 and not e.keywords
@@ -880,7 +981,13 @@ def rule_logger_run(cx, cls, R):
         rep.fail(R, I2, "%d appends to data_list per iteration (and %d outside the loop)" % (len(in_loop), len(appends) - len(in_loop)), where=cx.where(rel, (in_loop[1][1] if len(in_loop) > 1 else loop)))
         return
     aev, ac = in_loop[0]
-    stamps = [e for e in fl.in_loop(loop) if isinstance(e.node, ast.Assign) and [unp(t) for t in e.node.targets] == ["self.data_latest.data['time']"]]
+    def target_text(t):
+        # a store through a local alias of the record (`latest = self.data_latest.data; latest["time"] = ...`) is a store
+        # into the record
+        if isinstance(t, ast.Subscript):
+            return "%s[%s]" % (unp(cx.inl(t.value, fn)), unp(t.slice))
+        return unp(t)
+    stamps = [e for e in fl.in_loop(loop) if isinstance(e.node, ast.Assign) and [target_text(t) for t in e.node.targets] == ["self.data_latest.data['time']"]]
     probs = []
     if ac.func.attr != "append" or len(ac.args) != 1:
         probs.append((ac, "rows must be added with append(row): %s" % unp(ac)))
